@@ -327,3 +327,117 @@ func genC20Routing(p *Pkg) (map[string]string, error) {
 	b.WriteString("end GojaModel.Generated.C20\n")
 	return map[string]string{"C20_Routing.lean": b.String()}, nil
 }
+
+// ---------------------------------------------------------------------------------------------------
+// Guards of the lastIndex protocol and of the fast-path selection: the exact condition expressions that
+// the Lean model transcribes (Model.lean getLastIndex / execRegexp / fastGlobalMatches / fastSplit …).
+// Emitted as (label, source text) pairs; Tie.tie_guards compares them with the expressions the model was
+// written from.  Only decision expressions are pinned, not statement bodies.
+
+func init() { Register("C20", genC20Guards) }
+
+// c20FindIf returns the n-th (0-based) if-statement of the function body in source order (nested included).
+func c20Ifs(fd *ast.FuncDecl) []*ast.IfStmt {
+	var out []*ast.IfStmt
+	ast.Inspect(fd.Body, func(n ast.Node) bool {
+		if x, ok := n.(*ast.IfStmt); ok {
+			out = append(out, x)
+		}
+		return true
+	})
+	return out
+}
+
+func genC20Guards(p *Pkg) (map[string]string, error) {
+	type pair struct{ label, text string }
+	var out []pair
+	add := func(label, text string) { out = append(out, pair{label, text}) }
+	need := func(recv, name string) (*ast.FuncDecl, error) {
+		fd := p.FuncDecl(recv, name)
+		if fd == nil {
+			return nil, fmt.Errorf("%s.%s not found", recv, name)
+		}
+		return fd, nil
+	}
+	// getLastIndex: the condition under which lastIndex is ignored
+	fd, err := need("regexpObject", "getLastIndex")
+	if err != nil {
+		return nil, err
+	}
+	ifs := c20Ifs(fd)
+	if len(ifs) != 1 {
+		return nil, fmt.Errorf("getLastIndex: expected one if, found %d", len(ifs))
+	}
+	add("getLastIndex.zero", c20Text(p, ifs[0].Cond))
+	// execRegexp
+	fd, err = need("regexpObject", "execRegexp")
+	if err != nil {
+		return nil, err
+	}
+	ifs = c20Ifs(fd)
+	if len(ifs) != 3 {
+		return nil, fmt.Errorf("execRegexp: expected three ifs, found %d", len(ifs))
+	}
+	add("execRegexp.range", c20Text(p, ifs[0].Cond))
+	add("execRegexp.writeBack", c20Text(p, ifs[1].Cond))
+	add("execRegexp.ifMatch", c20Text(p, ifs[2].Cond))
+	if len(ifs[2].Body.List) == 1 {
+		add("execRegexp.newLastIndex", c20Text(p, ifs[2].Body.List[0]))
+	}
+	for _, s := range fd.Body.List {
+		if as, ok := s.(*ast.AssignStmt); ok && len(as.Lhs) == 1 {
+			if id, ok := as.Lhs[0].(*ast.Ident); ok && id.Name == "match" {
+				add("execRegexp.match", c20Text(p, as.Rhs[0]))
+			}
+		}
+	}
+	// fast-path selection
+	for _, fn := range []struct{ name, label string }{{"regexpproto_stdMatcher", "stdMatcher"}, {"regexpproto_stdReplacer", "stdReplacer"}, {"regexpproto_stdSearch", "stdSearch"}} {
+		fd, err = need("Runtime", fn.name)
+		if err != nil {
+			return nil, err
+		}
+		ifs = c20Ifs(fd)
+		if len(ifs) == 0 {
+			return nil, fmt.Errorf("%s: no if", fn.name)
+		}
+		add(fn.label+".generic", c20Text(p, ifs[0].Cond))
+	}
+	// stdSearch: lastIndex is restored before the no-match return
+	fd, _ = need("Runtime", "regexpproto_stdSearch")
+	restore, ret := -1, -1
+	for i, s := range fd.Body.List {
+		t := c20Text(p, s)
+		if strings.HasPrefix(t, `rx.setOwnStr("lastIndex", previousLastIndex`) {
+			restore = i
+		}
+		if x, ok := s.(*ast.IfStmt); ok && c20Text(p, x.Cond) == "!match" && ret < 0 {
+			ret = i
+		}
+	}
+	add("stdSearch.restoreBeforeNoMatchReturn", fmt.Sprint(restore >= 0 && ret >= 0 && restore < ret))
+	// stdSplitter: which empty matches do not split
+	fd, err = need("Runtime", "regexpproto_stdSplitter")
+	if err != nil {
+		return nil, err
+	}
+	for _, x := range c20Ifs(fd) {
+		if c20Text(p, x.Cond) == "result.indexes[0] == result.indexes[1]" && len(x.Body.List) == 1 {
+			if inner, ok := x.Body.List[0].(*ast.IfStmt); ok {
+				add("stdSplitter.skipEmpty", c20Text(p, inner.Cond))
+			}
+		}
+	}
+	var b strings.Builder
+	b.WriteString("-- GENERATED by extract/c20.go from regexp.go / builtin_regexp.go (guards of the lastIndex protocol and fast-path selection). Do not edit.\n")
+	b.WriteString("namespace GojaModel.Generated.C20\n\ndef guards : List (String × String) := [\n")
+	for i, pr := range out {
+		sep := ","
+		if i == len(out)-1 {
+			sep = ""
+		}
+		fmt.Fprintf(&b, "  (%s, %s)%s\n", LeanString(pr.label), LeanString(pr.text), sep)
+	}
+	b.WriteString("]\n\nend GojaModel.Generated.C20\n")
+	return map[string]string{"C20_Guards.lean": b.String()}, nil
+}
